@@ -386,46 +386,17 @@ def rule_close_code_reason(ctx):
 
 
 def _remote_code_validated(ctx, fn, legal):
-    """onCloseFrame: `self.remoteCloseCode = code` only on the branch where the invalid-code predicate is false."""
-    an = get_analysis(ctx)
-    g, mf, res = an.get(fn)
-    ok_all = True
-    seen = 0
-    for n, v in find_assign_nodes(g, "remoteCloseCode"):
-        k = norm.key(v, res)
-        if k[0] == "c":
-            if not (k[1] is None or k[1] in legal):
-                ok_all = False
-            continue
-        if norm.text(v) != "code":
-            ok_all = False
-            continue
-        seen += 1
-        # find the dominating test that mentions `code` with an F-edge on every path
-        tests = [t for t in g.stmt_nodes() if t.kind == "test" and "code" in norm.mentions_of(t.ast)]
-        dom_ok = False
-        for t in tests:
-            f_succ = [m for m, lab in t.succ if lab and lab[0] == "F"]
-            if not f_succ:
-                continue
-            # every path entry->n passes through t's F edge: n not reachable from t's T successors without ... simple: n reachable from F succ and not from T succ
-            t_succ = [m for m, lab in t.succ if lab and lab[0] == "T"]
-            reach_f = any(n.id in g.reachable(m) for m in f_succ)
-            reach_t = any(n.id in g.reachable(m) for m in t_succ)
-            if reach_f and not reach_t and g.always_preceded_by(n, lambda x, t=t: x is t):
-                try:
-                    p = compile_predicate(t.ast, "code", res, extra={})
-                except AnalysisError:
-                    continue
-                try:
-                    ext = {c for c in range(0, 65536) if not p(c)}
-                except TypeError:
-                    continue
-                if ext <= legal:
-                    dom_ok = True
-        if not dom_ok:
-            ok_all = False
-    return ok_all and seen >= 1
+    """onCloseFrame: whatever status code the peer sent, the code remembered as remoteCloseCode (and echoed) is none or one that may appear
+    on the wire.  Decided cell-wise (c02.close_code_cells): the method's validation prefix is evaluated for the codes around every literal it
+    compares with, for the case that the failure sinks let processing continue."""
+    from .c02 import close_code_cells
+    try:
+        domain, remembered = close_code_cells(ctx)
+        bad = [(c, remembered(c)) for c in domain]
+    except AnalysisError as e:
+        raise AnalysisError(f"[C05.4-close-code-reason-legal] onCloseFrame outside the modelled subset: {e}")
+    bad = [(c, r) for c, r in bad if not (r is None or (isinstance(r, int) and not isinstance(r, bool) and r in legal))]
+    return not bad and len(domain) >= 30
 
 
 def rule_onclose_owner(ctx):
@@ -491,6 +462,9 @@ def rule_onclose_owner(ctx):
             ok = norm.values_allowed(mm.at(n), "self.state", set(S.values())) == {S["STATE_OPEN"]}
         ctx.ob(f"{f.qualname}: the open notification is delivered only while the state is (still) OPEN", ok,
                "onOpen can be delivered on a connection that was closed or lost while the user's onConnect() was pending (onOpen after onClose)", f.loc(c))
+    # "after it nothing further is ... written": the same continuations, success AND failure side, evaluated (sa.core.tiny, callees evaluated in
+    # place down to the write sinks) on a connection that was lost while the user's onConnect() was pending
+    _pending_onconnect_cells(ctx, S)
     # wasClean = True only in onCloseFrame, in CLOSING (our close already sent) or in OPEN followed by our reply
     ocf = wsp.methods.get("onCloseFrame")
     n_true = 0
@@ -518,6 +492,73 @@ def rule_onclose_owner(ctx):
             else:
                 ctx.ob(cons, False, f"wasClean = True reachable in states {sorted(vals)}", f.loc(n.ast))
     ctx.require(n_true >= 2, "expected two `wasClean = True` sites in onCloseFrame")
+
+
+def _pending_onconnect_cells(ctx, S):
+    from ..core.tiny import Tiny, Sym
+    from .common import WSS
+    probs, n = [], 0
+    sinks = ("sendData", "dropConnection", "_onOpen", "onOpen", "_closeConnection", "consumeData", "unregisterProducer", "registerProducer", "_onConnect", "onConnect",
+             "sendHtml", "_trigger")
+    conts = []
+    for clsq, host, names in ((WSS, "processHandshake", ("forward_error",)), (WSC, "processHandshake", ("on_connect_success", "on_connect_failed"))):
+        hf = ctx.program.func(f"{clsq}.{host}")
+        for f_ in hf.nested_list():
+            if f_.name in names:
+                conts.append((clsq, f_, f"{clsq.split('.')[-1]}.{host}.{f_.name}"))
+    ss = ctx.program.func(f"{WSS}.succeedHandshake")
+    conts.append((WSS, ss, "WebSocketServerProtocol.succeedHandshake"))
+    ctx.require(len(conts) == 4, f"continuations of the pending onConnect() not found ({[c[2] for c in conts]})")
+    try:
+        for clsq, fn, label in conts:
+            cls = ctx.program.cls(clsq)
+            ctx.analysed(fn)
+
+            def inl(name, _cls=cls):
+                if name in sinks:
+                    return None
+                m_ = ctx.program.lookup_method(_cls, name)
+                return m_.node if m_ is not None else None
+            for deny in ((True, False) if fn.name == "forward_error" else (None,)):
+                wrote = []
+
+                def oracle(f_, a_, k_=None):
+                    if f_ in ("self.transport.write", "self.transport.close", "self.transport.abort", "self.transport.loseConnection") or \
+                            (f_.startswith("self.") and f_[5:] in sinks):
+                        wrote.append(f_)
+                        return None
+                    if f_ == "isinstance":
+                        return bool(deny)
+                    return Sym(f"<{f_}>")
+                env = {"self": Sym("protocol"), "self.state": S["STATE_CLOSED"], "self.transport": None, "self.log": Sym("log"), "self.failByDrop": True, "self.failedByMe": False,
+                       "self.trackedTimings": None, "self.data": [], "self.is_open": Sym("is_open"), "self.wasNotCleanReason": None, "self.factory": Sym("factory", isServer=clsq == WSS),
+                       "WebSocketProtocol": Sym("class WebSocketProtocol", **S)}
+                env.update({f"WebSocketProtocol.{k_}": v_ for k_, v_ in S.items()})
+                from .common import module_level_names
+                for k_, v_ in module_level_names(fn).items():
+                    env.setdefault(k_, v_)
+                env["ConnectionDeny"] = Sym("class ConnectionDeny", INTERNAL_SERVER_ERROR=500)
+                # whatever else the continuation reads of the protocol object is some opaque value: on a closed connection it must not get that far
+                for x_ in ast.walk(fn.node):
+                    if isinstance(x_, ast.Attribute) and is_self_attr(x_) and isinstance(x_.ctx, ast.Load) and f"self.{x_.attr}" not in env \
+                            and ctx.program.lookup_method(cls, x_.attr) is None:
+                        env[f"self.{x_.attr}"] = [] if x_.attr in ("websocket_extensions", "websocket_protocols", "perMessageCompressionOffers") else Sym(f"<self.{x_.attr}>")
+                prm = fn.params()
+                arg = prm[1] if fn.parent is None else (prm[0] if prm else None)
+                if arg:
+                    env[arg] = Sym("result-or-failure", value=Sym("exception", reason="denied", code=403))
+                r = Tiny(env, default_call=oracle, inline_self=inl, opaque_globals=True, model_strings=True, model_types=True).run(
+                    [x for x in fn.node.body if not (isinstance(x, ast.Expr) and isinstance(x.value, ast.Constant))])
+                n += 1
+                tag = label + ("" if deny is None else (" (ConnectionDeny)" if deny else " (unexpected exception)"))
+                if r[0] == "raise":
+                    probs.append(f"{tag}: raises {str(r[1])[:60]} on the closed connection")
+                elif wrote:
+                    probs.append(f"{tag}: still calls {sorted(set(wrote))} although the connection is closed (the close notification has been delivered)")
+    except AnalysisError as e:
+        raise AnalysisError(f"[C05.5-close-notification] continuation of the pending onConnect() outside the modelled subset: {e}")
+    ctx.ob(f"continuations of a pending onConnect() (success and failure side, server and client) write and deliver nothing once the connection is closed [{n} cells]",
+           not probs, "; ".join(probs[:2]), conts[0][1].loc())
 
 
 def rule_bounded_closing(ctx):
@@ -599,3 +640,6 @@ def run(ctx):
     # a direct write must not overtake queued frames: otherwise data frames follow our close frame on the wire
     from .c01 import rule_send_queue
     rule_send_queue(ctx, "C05.7-close-frame-is-not-overtaken")
+    # "the reported code and reason are the peer's": what onCloseFrame remembers of each close frame (and nothing of an earlier or refused one)
+    from .c02 import rule_close_payload
+    rule_close_payload(ctx, "C05.8-reported-code-and-reason-are-the-peers")
